@@ -79,6 +79,9 @@ class Regions:
         if isinstance(regions, Regions):
             self.regions.extend(regions.regions)
         else:
+            # a one-shot iterable (e.g., a generator) can be traversed
+            # only once
+            regions = list(regions)
             for item in regions:
                 if not isinstance(item, Region):
                     raise TypeError('Input regions must be a list of Region '
